@@ -228,3 +228,44 @@ func VC_C01_method_value() {
 	}
 	verifReached("C01.method-value")
 }
+
+var vC01VoidSeen int
+
+func vC01Void(i int) { vC01VoidSeen = i }
+
+// VC_C01_no_results: a function without results stubbed by Return() - plainly or under a
+// condition: a (matching) call runs the stub instead of the original and returns normally.
+func VC_C01_no_results() {
+	vEnv()
+	vPristine(vC01Void)
+	b := Create()
+	x := verifInt("x")
+	switch verifChoice("form", 3) {
+	case 0:
+		b.Func(vC01Void).Return()
+	case 1:
+		b.Func(vC01Void).When(x).Return()
+	default:
+		b.Func(vC01Void).When(x+1).Return().In(x, x+2).Return()
+	}
+	verifAssert(vDiverted(vC01Void), "C01.no-results.mock-installed")
+	f, ok := vInvoke(vC01Void, "C01.no-results").(func(int))
+	verifAssert(ok, "C01.no-results.installed-has-target-signature")
+	if ok {
+		vC01VoidSeen = -1
+		panicked := false
+		func() {
+			defer func() {
+				if e := recover(); e != nil {
+					panicked = true
+				}
+			}()
+			f(x)
+		}()
+		verifAssert(!panicked, "C01.no-results.stubbed-call-returns-normally")
+		verifAssert(vC01VoidSeen == -1, "C01.no-results.original-not-run")
+	}
+	b.Reset()
+	verifAssert(!vDiverted(vC01Void), "C01.no-results.reset-restores")
+	verifReached("C01.no-results")
+}
